@@ -15,7 +15,7 @@
    panic sites 10/13/14 on an ill-formed machine are C06's display_err_total).      *)
 From MW Require Import Model.Base Model.F64 Model.Num Model.Datum Model.TransformDef
   Model.VmTypes Model.Heap Model.VmBase Model.ListVec Model.PreludeLists Model.ListVecSpec Proofs.ListVecProofs
-  Proofs.PreludeMemProofs.
+  Proofs.PreludeMemProofs Proofs.PreludeMapProofs Proofs.PreludeMapProofs2.
 Open Scope N_scope.
 
 (* ------------------------------------------------------------------ car cdr *)
@@ -559,13 +559,14 @@ Proof. exact apply_cons. Qed.
 Print Assumptions C14_apply_cons.
 
 (* ======================================================================== OPEN *)
-(* Statements that are NOT proved.  What is claimed in this file cannot be mistaken for the
-   whole of C14: the remaining procedures of the hand model Model/PreludeLists.v — map,
-   for-each, caar, cdar, cddr — have NO THEOREM (correspondence check, interface 40, and the
-   reference-store oracle only); and every theorem of the hand-model section below is about the
-   HAND model of prelude.scm, to be re-established over the generated prelude run by the VM
-   model.  (memq memv member assq assv assoc: proved below, work package c19b; the former
-   [prelude_member_stmt] is now the theorem [C14_handmodel_member].) *)
+(* What is claimed in this file cannot be mistaken for the whole of C14: every theorem of the
+   hand-model section below is about the HAND model of prelude.scm (Model/PreludeLists.v,
+   validated by the correspondence check, interface 40), to be re-established over the
+   generated prelude run by the VM model.  Within the hand model every procedure now has a
+   theorem: list length cadr (work package lv), memq memv member assq assv assoc (c19b),
+   caar cdar cddr map for-each (c19c, at the end of this file).  Still not proved: an
+   abstract (R7RS eqv?) reading of memv / assv for immediate keys; map / for-each on
+   argument lists whose shortest one is improper (an error is reported: not stated). *)
 
 (* ==========================================================================
    HAND MODEL SECTION.  The theorem below is about Model/PreludeLists.v, the hand
@@ -737,3 +738,197 @@ Example C14_cons_runs :
   exists p s', apply_builtin cons_ [VNum (Fixnum 1); VNil] (vm_empty 16) = ROk (VPtr p) s' /\
                a_pair (abs s') p = Some (AImm (VNum (Fixnum 1)), AImm VNil).
 Proof. eexists. eexists. split; vm_compute; reflexivity. Qed.
+
+(* ==========================================================================
+   HAND MODEL, work package c19c: caar cdar cddr, map, for-each
+   (Proofs/PreludeMapProofs.v, Proofs/PreludeMapProofs2.v).
+   Vocabulary.  [inv s] = values_are_refs s /\ sp s < scap s.  [same s s']: only the stack
+   moved (heap equal, and [rest]: st, globals, bp ep ip acc, out_log equal).  [quiet s s']:
+   [pres s s'] (every live cell, vector, string unchanged: only fresh cells were written) and
+   [rest] equal.  [anil] = AImm VNil.
+   ========================================================================== *)
+(* ---- caar cdar cddr (and cadr) on the abstract view: the field of the field *)
+Theorem C14_handmodel_caar : forall fuel s o p x d q y e,
+  inv s -> val_ok s o -> absv s o = ALoc (LPair p) -> a_pair (abs s) p = Some (x, d) ->
+  x = ALoc (LPair q) -> a_pair (abs s) q = Some (y, e) ->
+  exists r s', MW.Model.PreludeLists.p_caar fuel [o] s = ROk r s' /\ same s s' /\ sp s' < scap s' /\
+               val_ok s r /\ absv s r = y.
+Proof. exact prelude_caar_spec. Qed.
+Print Assumptions C14_handmodel_caar.
+Theorem C14_handmodel_cdar : forall fuel s o p x d q y e,
+  inv s -> val_ok s o -> absv s o = ALoc (LPair p) -> a_pair (abs s) p = Some (x, d) ->
+  x = ALoc (LPair q) -> a_pair (abs s) q = Some (y, e) ->
+  exists r s', MW.Model.PreludeLists.p_cdar fuel [o] s = ROk r s' /\ same s s' /\ sp s' < scap s' /\
+               val_ok s r /\ absv s r = e.
+Proof. exact prelude_cdar_spec. Qed.
+Print Assumptions C14_handmodel_cdar.
+Theorem C14_handmodel_cddr : forall fuel s o p x d q y e,
+  inv s -> val_ok s o -> absv s o = ALoc (LPair p) -> a_pair (abs s) p = Some (x, d) ->
+  d = ALoc (LPair q) -> a_pair (abs s) q = Some (y, e) ->
+  exists r s', MW.Model.PreludeLists.p_cddr fuel [o] s = ROk r s' /\ same s s' /\ sp s' < scap s' /\
+               val_ok s r /\ absv s r = e.
+Proof. exact prelude_cddr_spec. Qed.
+Print Assumptions C14_handmodel_cddr.
+Theorem C14_handmodel_cadr_abs : forall fuel s o p x d q y e,
+  inv s -> val_ok s o -> absv s o = ALoc (LPair p) -> a_pair (abs s) p = Some (x, d) ->
+  d = ALoc (LPair q) -> a_pair (abs s) q = Some (y, e) ->
+  exists r s', MW.Model.PreludeLists.p_cadr fuel [o] s = ROk r s' /\ same s s' /\ sp s' < scap s' /\
+               val_ok s r /\ absv s r = y.
+Proof. exact prelude_cadr_abs_spec. Qed.
+Print Assumptions C14_handmodel_cadr_abs.
+(* an error is reported when the argument, or the field the inner accessor selects, is not a pair *)
+Theorem C14_handmodel_cxxr_fail : forall fuel s o,
+  inv s -> val_ok s o ->
+  ((forall p, absv s o <> ALoc (LPair p)) ->
+     render_fail (MW.Model.PreludeLists.p_caar fuel [o] s) /\ render_fail (MW.Model.PreludeLists.p_cadr fuel [o] s) /\
+     render_fail (MW.Model.PreludeLists.p_cdar fuel [o] s) /\ render_fail (MW.Model.PreludeLists.p_cddr fuel [o] s)) /\
+  (forall p x d, absv s o = ALoc (LPair p) -> a_pair (abs s) p = Some (x, d) ->
+     ((forall q, x <> ALoc (LPair q)) ->
+        render_fail (MW.Model.PreludeLists.p_caar fuel [o] s) /\ render_fail (MW.Model.PreludeLists.p_cdar fuel [o] s)) /\
+     ((forall q, d <> ALoc (LPair q)) ->
+        render_fail (MW.Model.PreludeLists.p_cadr fuel [o] s) /\ render_fail (MW.Model.PreludeLists.p_cddr fuel [o] s))).
+Proof. exact prelude_cxxr_fail. Qed.
+Print Assumptions C14_handmodel_cxxr_fail.
+Example C14_cxxr_runs :
+  match (dom e1 <- apply_builtin cons_ [ex_num 1; ex_num 2];
+         dom e2 <- apply_builtin cons_ [ex_num 3; ex_num 4];
+         apply_builtin cons_ [e1; e2]) (vm_empty 64) with
+  | ROk o s1 =>
+      ex_show (MW.Model.PreludeLists.p_caar 9 [o] s1) = Some (CNum (Fixnum 1)) /\
+      ex_show (MW.Model.PreludeLists.p_cdar 9 [o] s1) = Some (CNum (Fixnum 2)) /\
+      ex_show (MW.Model.PreludeLists.p_cadr 9 [o] s1) = Some (CNum (Fixnum 3)) /\
+      ex_show (MW.Model.PreludeLists.p_cddr 9 [o] s1) = Some (CNum (Fixnum 4)) /\
+      render_fail (MW.Model.PreludeLists.p_caar 9 [ex_num 5] s1)
+  | _ => False
+  end.
+Proof. vm_compute. repeat split. Qed.
+(* the hypotheses of caar / cdar are satisfiable: a machine holding ((1 . 2) . 3) *)
+Example C14_cxxr_hyps_inhabited :
+  exists s o p x d q y e,
+    inv s /\ val_ok s o /\ absv s o = ALoc (LPair p) /\ a_pair (abs s) p = Some (x, d) /\
+    x = ALoc (LPair q) /\ a_pair (abs s) q = Some (y, e) /\ y = AImm (VNum (Fixnum 1)).
+Proof. exact cxxr_hyps_inhabited. Qed.
+
+(* ---- map and for-each (prelude.scm:222-253).  The procedure argument is abstract,
+   [fn : list vcell -> M vcell], under the hypothesis that on well-formed argument values whose
+   abstract values satisfy [Pre] it returns a value and keeps the invariant and every live
+   object ([pres]); it may allocate and may change registers and tables otherwise.
+   [amap_rows a vs rows]: the argument lists (abstract values vs) seen row by row — while no
+   list is () every list is a pair, the row is the list of the cars, the walk goes on with the
+   cdrs; it stops at the first () (the shortest list; the others need not even be proper).
+   [calls fn s rows ys s']: the run from s to s' is bookkeeping ([quiet]: stack moves and fresh
+   cells only), then fn on argument values denoting the first row (abstract result y1, every
+   live object kept), bookkeeping, fn on the second row, ... IN THIS ORDER, nothing else.
+   map: the result is a NEWLY ALLOCATED proper list ([aprefix .. locs ys anil], its pairs [locs]
+   not live before) of the results y1 ... yn.  for-each: the result is #<void>. *)
+Theorem C14_handmodel_map : forall fuel (fn : list vcell -> M vcell) (Pre : list aval -> Prop),
+  (forall s args, values_are_refs s -> sp s < scap s -> Forall (val_ok s) args -> Pre (map (absv s) args) ->
+     exists r s', fn args s = ROk r s' /\ pres s s' /\ values_are_refs s' /\ sp s' < scap s' /\ val_ok s' r) ->
+  forall s lists rows,
+  inv s -> Forall (val_ok s) lists -> amap_rows (abs s) (map (absv s) lists) rows ->
+  (length lists + 1 <= fuel)%nat -> (length rows + 1 <= fuel)%nat -> Forall Pre rows ->
+  exists r s' ys locs, MW.Model.PreludeLists.p_map fuel fn lists s = ROk r s' /\ calls fn s rows ys s' /\
+    inv s' /\ val_ok s' r /\ aprefix (abs s') (absv s' r) locs ys anil /\ fresh_in s locs.
+Proof. exact prelude_map_spec. Qed.
+Print Assumptions C14_handmodel_map.
+
+Theorem C14_handmodel_for_each : forall fuel (fn : list vcell -> M vcell) (Pre : list aval -> Prop),
+  (forall s args, values_are_refs s -> sp s < scap s -> Forall (val_ok s) args -> Pre (map (absv s) args) ->
+     exists r s', fn args s = ROk r s' /\ pres s s' /\ values_are_refs s' /\ sp s' < scap s' /\ val_ok s' r) ->
+  forall s lists rows,
+  inv s -> Forall (val_ok s) lists -> amap_rows (abs s) (map (absv s) lists) rows ->
+  (length lists + 1 <= fuel)%nat -> (length rows + 1 <= fuel)%nat -> Forall Pre rows ->
+  exists s' ys, MW.Model.PreludeLists.p_for_each fuel fn lists s = ROk VVoid s' /\ calls fn s rows ys s' /\ inv s'.
+Proof. exact prelude_for_each_spec. Qed.
+Print Assumptions C14_handmodel_for_each.
+
+(* what the trace gives: every live object survives the whole run, one result per row *)
+Theorem C14_calls_pres : forall fn s rows ys s', calls fn s rows ys s' -> pres s s'.
+Proof. exact calls_pres. Qed.
+Print Assumptions C14_calls_pres.
+Theorem C14_calls_lengths : forall fn s rows ys s', calls fn s rows ys s' -> length ys = length rows.
+Proof. exact calls_lengths. Qed.
+Print Assumptions C14_calls_lengths.
+
+(* the one-list form: l a proper list x1 ... xn ([row1 x] = [x]) *)
+Theorem C14_handmodel_map_one : forall fuel (fn : list vcell -> M vcell) (Pre : list aval -> Prop),
+  (forall s args, values_are_refs s -> sp s < scap s -> Forall (val_ok s) args -> Pre (map (absv s) args) ->
+     exists r s', fn args s = ROk r s' /\ pres s s' /\ values_are_refs s' /\ sp s' < scap s' /\ val_ok s' r) ->
+  forall s l xs,
+  inv s -> val_ok s l -> achain (abs s) (absv s l) xs anil ->
+  (length xs + 2 <= fuel)%nat -> Forall (fun x => Pre [x]) xs ->
+  exists r s' ys locs, MW.Model.PreludeLists.p_map fuel fn [l] s = ROk r s' /\ calls fn s (map row1 xs) ys s' /\
+    inv s' /\ val_ok s' r /\ aprefix (abs s') (absv s' r) locs ys anil /\ fresh_in s locs /\
+    length ys = length xs.
+Proof. exact prelude_map_one. Qed.
+Print Assumptions C14_handmodel_map_one.
+
+(* the two-list form ([row2 (x, y)] = [x; y]): stops at the shorter list *)
+Theorem C14_handmodel_map_two : forall fuel (fn : list vcell -> M vcell) (Pre : list aval -> Prop),
+  (forall s args, values_are_refs s -> sp s < scap s -> Forall (val_ok s) args -> Pre (map (absv s) args) ->
+     exists r s', fn args s = ROk r s' /\ pres s s' /\ values_are_refs s' /\ sp s' < scap s' /\ val_ok s' r) ->
+  forall s l1 l2 xs ys,
+  inv s -> val_ok s l1 -> val_ok s l2 ->
+  achain (abs s) (absv s l1) xs anil -> achain (abs s) (absv s l2) ys anil ->
+  (3 <= fuel)%nat -> (Nat.min (length xs) (length ys) + 1 <= fuel)%nat ->
+  Forall (fun xy => Pre (row2 xy)) (combine xs ys) ->
+  exists r s' zs locs, MW.Model.PreludeLists.p_map fuel fn [l1; l2] s = ROk r s' /\
+    calls fn s (map row2 (combine xs ys)) zs s' /\
+    inv s' /\ val_ok s' r /\ aprefix (abs s') (absv s' r) locs zs anil /\ fresh_in s locs /\
+    length zs = Nat.min (length xs) (length ys).
+Proof. exact prelude_map_two. Qed.
+Print Assumptions C14_handmodel_map_two.
+
+Theorem C14_handmodel_for_each_one : forall fuel (fn : list vcell -> M vcell) (Pre : list aval -> Prop),
+  (forall s args, values_are_refs s -> sp s < scap s -> Forall (val_ok s) args -> Pre (map (absv s) args) ->
+     exists r s', fn args s = ROk r s' /\ pres s s' /\ values_are_refs s' /\ sp s' < scap s' /\ val_ok s' r) ->
+  forall s l xs,
+  inv s -> val_ok s l -> achain (abs s) (absv s l) xs anil ->
+  (length xs + 2 <= fuel)%nat -> Forall (fun x => Pre [x]) xs ->
+  exists s' ys, MW.Model.PreludeLists.p_for_each fuel fn [l] s = ROk VVoid s' /\
+    calls fn s (map row1 xs) ys s' /\ inv s'.
+Proof. exact prelude_for_each_one. Qed.
+Print Assumptions C14_handmodel_for_each_one.
+
+Theorem C14_handmodel_for_each_two : forall fuel (fn : list vcell -> M vcell) (Pre : list aval -> Prop),
+  (forall s args, values_are_refs s -> sp s < scap s -> Forall (val_ok s) args -> Pre (map (absv s) args) ->
+     exists r s', fn args s = ROk r s' /\ pres s s' /\ values_are_refs s' /\ sp s' < scap s' /\ val_ok s' r) ->
+  forall s l1 l2 xs ys,
+  inv s -> val_ok s l1 -> val_ok s l2 ->
+  achain (abs s) (absv s l1) xs anil -> achain (abs s) (absv s l2) ys anil ->
+  (3 <= fuel)%nat -> (Nat.min (length xs) (length ys) + 1 <= fuel)%nat ->
+  Forall (fun xy => Pre (row2 xy)) (combine xs ys) ->
+  exists s' zs, MW.Model.PreludeLists.p_for_each fuel fn [l1; l2] s = ROk VVoid s' /\
+    calls fn s (map row2 (combine xs ys)) zs s' /\ inv s'.
+Proof. exact prelude_for_each_two. Qed.
+Print Assumptions C14_handmodel_for_each_two.
+
+(* non-vacuity.  The hypothesis on fn holds of a procedure that allocates, (lambda (a b) (cons a b))
+   entered as a direct call of the builtin ([fn_cons], Pre = two arguments), and of the identity *)
+Theorem C14_map_fn_inhabited : forall s args,
+  values_are_refs s -> sp s < scap s -> Forall (val_ok s) args -> two_args (map (absv s) args) ->
+  exists r s', fn_cons args s = ROk r s' /\ pres s s' /\ values_are_refs s' /\ sp s' < scap s' /\ val_ok s' r.
+Proof. exact fn_cons_ok. Qed.
+Print Assumptions C14_map_fn_inhabited.
+(* ... the hypotheses on the lists hold on a machine that built (1 2 3) and (4 5) *)
+Example C14_map_hyps_inhabited :
+  exists s l1 l2 xs ys,
+    inv s /\ val_ok s l1 /\ val_ok s l2 /\
+    achain (abs s) (absv s l1) xs anil /\ achain (abs s) (absv s l2) ys anil /\
+    length xs = 3%nat /\ length ys = 2%nat /\ Forall (fun xy => two_args (row2 xy)) (combine xs ys).
+Proof. exact map_hyps_inhabited. Qed.
+(* ... and the model really runs: (map cons '(1 2 3) '(4 5)) = ((1 . 4) (2 . 5)), (map id '(1 2 3)) =
+   (1 2 3), (for-each cons ..) = #<void> *)
+Example C14_map_runs :
+  match (dom l1 <- MW.Model.PreludeLists.p_list [ex_num 1; ex_num 2; ex_num 3];
+         dom l2 <- MW.Model.PreludeLists.p_list [ex_num 4; ex_num 5];
+         ret (l1, l2)) (vm_empty 64) with
+  | ROk (l1, l2) s1 =>
+      ex_show (MW.Model.PreludeLists.p_map 9 fn_cons [l1; l2] s1)
+        = Some (new_list [CPair (CNum (Fixnum 1)) (CNum (Fixnum 4)); CPair (CNum (Fixnum 2)) (CNum (Fixnum 5))]) /\
+      ex_show (MW.Model.PreludeLists.p_map 9 fn_id [l1] s1)
+        = Some (new_list [CNum (Fixnum 1); CNum (Fixnum 2); CNum (Fixnum 3)]) /\
+      ex_show (MW.Model.PreludeLists.p_for_each 9 fn_cons [l1; l2] s1) = Some CVoid
+  | _ => False
+  end.
+Proof. vm_compute. repeat split. Qed.
